@@ -1,7 +1,5 @@
 package parse
 
-import "fmt"
-
 // parseExpr parses an expression.
 func (t *Tree) parseExpr() (Expr, error) {
 	return t.parseExprPrec(0)
@@ -197,6 +195,7 @@ func (t *Tree) parseOuterExprPrec(expr Expr, min int) (Expr, error) {
 //
 //	{% if 10 is divisible by(3) %}
 func (t *Tree) parseRightTestOperand(prev *NameExpr) (*TestExpr, error) {
+	first := t.peekNonSpace()
 	right, err := t.parseInnerExpr()
 	if err != nil {
 		return nil, err
@@ -221,7 +220,8 @@ func (t *Tree) parseRightTestOperand(prev *NameExpr) (*TestExpr, error) {
 		}
 		return &TestExpr{r}, nil
 	default:
-		return nil, fmt.Errorf(`Expected name or function, got "%v"`, right)
+		// neither a test name nor a test called with arguments
+		return nil, newUnexpectedTokenError(first, tokenName)
 	}
 }
 
